@@ -658,6 +658,13 @@ pub fn rekey(
     msk: &mut MasterSecretKey,
     rights: HashSet<Right>,
 ) -> Result<(), Error> {
+    // Validate before modifying anything: a failed re-key must not leave some
+    // of the rights rotated.
+    if rights.iter().any(|r| !msk.secrets.contains_key(r)) {
+        return Err(Error::OperationNotPermitted(
+            "cannot re-key a right not belonging to the MSK".to_string(),
+        ));
+    }
     for r in rights {
         if msk.secrets.contains_key(&r) {
             // The new secret inherits the activation status of the current
